@@ -1132,7 +1132,7 @@ async def async_fifo_stream(
                 await tasks.put((x, t))
                 # The size of the queue `tasks` regulates how many
                 # concurrent calls to `func` there can be.
-        except Exception as e:
+        except (Exception, StopRequested) as e:
             await tasks.put(e)
         else:
             await tasks.put(None)
@@ -1156,7 +1156,7 @@ async def async_fifo_stream(
             z = await tasks.get()
             if z is None:
                 break
-            if isinstance(z, Exception):
+            if isinstance(z, (Exception, StopRequested)):
                 raise z
 
             x, t = z
@@ -1180,7 +1180,7 @@ async def async_fifo_stream(
             z = await tasks.get()
             if z is None:
                 break
-            if isinstance(z, Exception):
+            if isinstance(z, (Exception, StopRequested)):
                 break
             _, t = z
             t.cancel()
